@@ -2136,6 +2136,9 @@ func (d *Document) parseBodySubElement(decoder *xml.Decoder, startElement xml.St
 	case "sectPr":
 		// 解析节属性
 		return d.parseSectionProperties(decoder, startElement)
+	case "sdt":
+		// 解析结构化文档标签（目录等）
+		return d.parseSDT(decoder, startElement)
 	case "bookmarkStart":
 		// 书签开始（AddHeadingParagraphWithBookmark 会在正文层级写出）
 		bookmark := &BookmarkStart{
